@@ -26,8 +26,10 @@ mod mon_c11;
 mod mon_c12;
 mod mon_c13;
 mod mon_c14;
+mod mon_c15;
 mod mon_c16;
 mod mon_c17;
+mod mon_c18;
 mod mon_c16_core;
 mod pool;
 mod ref_dfa;
@@ -165,8 +167,10 @@ fn main() {
         "C12" => mon_c12::run(&mut ctx),
         "C13" => mon_c13::run(&mut ctx),
         "C14" => mon_c14::run(&mut ctx),
+        "C15" => mon_c15::run(&mut ctx),
         "C16" => mon_c16::run(&mut ctx),
         "C17" => mon_c17::run(&mut ctx),
+        "C18" => mon_c18::run(&mut ctx),
         _ => {
             eprintln!("unknown property {prop}");
             std::process::exit(2);
